@@ -4,7 +4,7 @@ usage: catch_matrix.py <dir-or-patch>... -> selftest/catch_matrix.json (merged)"
 import json, os, shutil, subprocess, sys, tempfile
 from concurrent.futures import ThreadPoolExecutor
 HERE = os.path.dirname(os.path.abspath(__file__)); VERIF = os.path.dirname(HERE)
-PROPS = [f'C{i:02d}' for i in range(1, 21)]
+PROPS = os.environ['MATRIX_PROPS'].split(',') if os.environ.get('MATRIX_PROPS') else [f'C{i:02d}' for i in range(1, 21)]      # MATRIX_PROPS=C06,C07 restricts the checks run
 
 def run(patch):
     d = tempfile.mkdtemp(prefix='vcm.', dir='/tmp')
